@@ -210,6 +210,20 @@ async fn run(p: &Program) -> Value {
                 };
                 json!({"res": oke(&r)})
             }
+            "call_sync" => {
+                // a synchronous facade: the calling thread blocks until the actor has answered - the actor (spawned
+                // earlier) runs on its own, whatever the caller does
+                let r = match hs.get(&o.h) {
+                    Some(Hd::Addr(a)) => futures::executor::block_on(a.call(CMsg(c, n))),
+                    Some(Hd::Own(a)) => futures::executor::block_on(a.call(CMsg(c, n))),
+                    Some(Hd::Svc(a)) => futures::executor::block_on(a.call(CMsg(c, n))),
+                    _ => panic!("call_sync on wrong handle"),
+                };
+                match r {
+                    Ok((pos, inst)) => json!({"res": "ok", "pos": pos, "inst": inst}),
+                    Err(_) => json!({"res": "err"}),
+                }
+            }
             "call" => {
                 let r = match hs.get(&o.h) {
                     Some(Hd::Addr(a)) => a.call(CMsg(c, n)).await,
@@ -293,9 +307,15 @@ async fn run(p: &Program) -> Value {
                 hs.remove(&o.h);
                 json!({"res": "ok"})
             }
-            "join" => {
+            "join" | "join_dd" => {
                 let r = match hs.get_mut(&o.h) {
-                    Some(Hd::Own(a)) => a.join().await,
+                    Some(Hd::Own(a)) => {
+                        if o.op == "join_dd" {
+                            // a join future that is made and dropped without ever being polled takes nothing with it
+                            drop(a.join());
+                        }
+                        a.join().await
+                    }
                     _ => panic!("join on wrong handle"),
                 };
                 match r {
